@@ -99,6 +99,12 @@ def np_reduce(func: str, vals: np.ndarray, pos: np.ndarray, *, ddof: int = 0):
         if func in ("nanargmax", "nanargmin"):
             if nan.all():
                 return AMBIGUOUS
+            if nan.any():
+                # NumPy substitutes -inf/+inf for NaN first: when the group's true extreme IS that
+                # infinity NumPy may point at a NaN position; conventions legitimately differ there
+                valid = v[~nan]
+                if (func == "nanargmin" and valid.min() == np.inf) or (func == "nanargmax" and valid.max() == -np.inf):
+                    return AMBIGUOUS
             return int(pos[getattr(np, func)(v)])
         if func == "first":
             return v[0]
